@@ -340,7 +340,7 @@ pub fn run_thread(w: Rc<World>, body: usize) {
     while pc < ops.len() {
         let op = &ops[pc];
         if let Op::IfEq(i, r, n) = op {
-            if results.get(i) == Some(r) {
+            if results.get(&(pc - *i)) == Some(r) {
                 pc += 1;
             } else {
                 pc += 1 + n;
